@@ -473,3 +473,235 @@ Proof.
   - inversion H; subst. exact E.
   - inversion H; subst. exact E.
 Qed.
+
+(* ================================================================== *)
+(* 5. The sharing structure of the result.                              *)
+(* ================================================================== *)
+
+Definition slot_ok (n0 : nat) (secret : loc) (h0 h' : heap) (k : key) (al rl : loc) (v' : value) : Prop :=
+  match v' with
+  | VMap _ _ => Shr n0 secret h0 h' al rl v'
+  | VStr _ => if secret_key k then rl = secret else True
+  | VOther _ => rl = if secret_key k then secret else al
+  end.
+
+Fixpoint ShrSlots (n0 : nat) (secret : loc) (h0 h' : heap) (aits rits : list (key * loc))
+         (vs : list (key * value)) {struct vs} : Prop :=
+  match aits, rits, vs with
+  | [], [], [] => True
+  | (k, al) :: aits', (k1, rl) :: rits', (k2, v') :: vs' =>
+      k1 = k /\ k2 = k /\ slot_ok n0 secret h0 h' k al rl v' /\ ShrSlots n0 secret h0 h' aits' rits' vs'
+  | _, _, _ => False
+  end.
+
+Lemma Shr_VMap n0 secret h0 h' a r kd vs :
+  Shr n0 secret h0 h' a r (VMap kd vs) <->
+  n0 <= r /\ exists aitems ritems,
+    hget h0 a = Some (PDict kd aitems) /\ hget h' r = Some (PDict dict_kind ritems) /\
+    ShrSlots n0 secret h0 h' aitems ritems vs.
+Proof.
+  cbn [Shr].
+  assert (E : forall vs aits rits,
+    (fix slots (aits rits : list (key * loc)) (vs : list (key * value)) {struct vs} : Prop :=
+       match aits, rits, vs with
+       | [], [], [] => True
+       | (k, al) :: aits', (k1, rl) :: rits', (k2, v') :: vs' =>
+           k1 = k /\ k2 = k /\
+           match v' with
+           | VMap _ _ => Shr n0 secret h0 h' al rl v'
+           | VStr _ => if secret_key k then rl = secret else True
+           | VOther _ => rl = if secret_key k then secret else al
+           end /\ slots aits' rits' vs'
+       | _, _, _ => False
+       end) aits rits vs = ShrSlots n0 secret h0 h' aits rits vs).
+  { clear. induction vs as [|[k2 v'] vs IH]; intros [|[k al] aits] [|[k1 rl] rits]; try reflexivity.
+    cbn [ShrSlots]. unfold slot_ok. rewrite IH. reflexivity. }
+  split.
+  - intros [H1 [ai [ri [H2 [H3 H4]]]]]. split; [exact H1|]. exists ai, ri. rewrite <- E. auto.
+  - intros [H1 [ai [ri [H2 [H3 H4]]]]]. split; [exact H1|]. exists ai, ri. rewrite E. auto.
+Qed.
+
+Lemma ShrSlots_impl a b secret h0 h1 h2 : forall vs aits rits,
+  Forall (fun kv => forall al rl, Shr a secret h0 h1 al rl (snd kv) -> Shr b secret h0 h2 al rl (snd kv)) vs ->
+  ShrSlots a secret h0 h1 aits rits vs -> ShrSlots b secret h0 h2 aits rits vs.
+Proof.
+  induction vs as [|[k2 v'] vs IH]; intros [|[k al] aits] [|[k1 rl] rits] HF H; cbn [ShrSlots] in *; try tauto.
+  inversion HF as [|? ? Hv Hrest]; subst. cbn [snd] in Hv. destruct H as [H1 [H2 [H3 H4]]].
+  split; [exact H1|]. split; [exact H2|]. split; [|apply IH; assumption].
+  unfold slot_ok in *. destruct v'; auto.
+Qed.
+
+Lemma Shr_mono n1 n2 secret h0 h' : n1 <= n2 -> forall v a r, Shr n2 secret h0 h' a r v -> Shr n1 secret h0 h' a r v.
+Proof.
+  intros Hn. induction v as [s|t|kd vs IH] using value_ind'; intros a r H; try exact I.
+  apply Shr_VMap in H. apply Shr_VMap. destruct H as [H1 [ai [ri [H2 [H3 H4]]]]]. split; [lia|].
+  exists ai, ri. split; [exact H2|]. split; [exact H3|]. eapply ShrSlots_impl; [|exact H4]. exact IH.
+Qed.
+
+(* the relation reads the result heap only at dict locations >= n1 *)
+Lemma Shr_stable n1 secret h0 h1 h2 :
+  (forall m, n1 <= m -> m < length h1 -> hget h2 m = hget h1 m) ->
+  forall v a r, Shr n1 secret h0 h1 a r v -> Shr n1 secret h0 h2 a r v.
+Proof.
+  intros Hag. induction v as [s|t|kd vs IH] using value_ind'; intros a r H; try exact I.
+  apply Shr_VMap in H. apply Shr_VMap. destruct H as [H1 [ai [ri [H2 [H3 H4]]]]]. split; [exact H1|].
+  exists ai, ri. split; [exact H2|]. split.
+  - rewrite Hag; [exact H3|exact H1|eapply hget_lt; exact H3].
+  - eapply ShrSlots_impl; [|exact H4]. exact IH.
+Qed.
+
+Lemma ShrSlots_stable n1 secret h0 h1 h2 aits rits vs :
+  (forall m, n1 <= m -> m < length h1 -> hget h2 m = hget h1 m) ->
+  ShrSlots n1 secret h0 h1 aits rits vs -> ShrSlots n1 secret h0 h2 aits rits vs.
+Proof.
+  intros Hag. apply ShrSlots_impl. apply Forall_forall. intros kv _ al rl. apply Shr_stable. exact Hag.
+Qed.
+
+Lemma ShrSlots_snoc n secret h0 h k al rl v : slot_ok n secret h0 h k al rl v ->
+  forall pv pa pr, ShrSlots n secret h0 h pa pr pv ->
+  ShrSlots n secret h0 h (pa ++ [(k, al)]) (pr ++ [(k, rl)]) (pv ++ [(k, v)]).
+Proof.
+  intros Hs. induction pv as [|[k2 v'] pv IH]; intros [|[k0 al0] pa] [|[k1 rl0] pr] H; cbn [ShrSlots] in H; try tauto.
+  - cbn [app ShrSlots]. auto.
+  - destruct H as [H1 [H2 [H3 H4]]]. cbn [app ShrSlots]. auto.
+Qed.
+
+Lemma dict_set_l_fresh k l d : ~ In k (map fst d) -> dict_set_l k l d = d ++ [(k, l)].
+Proof.
+  induction d as [|[k' l'] t IH]; intros H; [reflexivity|].
+  cbn [dict_set_l map fst In app] in *.
+  destruct (key_eqb k' k) eqn:E.
+  - apply key_eqb_eq in E. subst. tauto.
+  - rewrite IH by tauto. reflexivity.
+Qed.
+
+Lemma DenItems_keys n h : forall vs its, DenItems n h its vs -> map fst its = map fst vs.
+Proof.
+  induction vs as [|[k' v'] vs IH]; intros [|[k l] its] H; cbn [DenItems] in H; try tauto; try reflexivity.
+  destruct H as [H1 [_ H3]]. cbn [map fst]. rewrite H1, (IH its H3). reflexivity.
+Qed.
+
+Section Sharing.
+  Variable mp_h : heap -> loc -> loc -> heap * loc.
+  Hypothesis mp_h_extends : forall h m s, exists e, fst (mp_h h m s) = h ++ e.
+  Notation mdp_h := (mdp_h mp_h).
+  Notation go_h := (go_h mp_h).
+
+  (* h0: the heap in which the argument lives; hc: the (extended) heap at the time of the call *)
+  Definition shr_at (h0 : heap) (secret : loc) (v : value) : Prop :=
+    forall fuel hc d h' r, pres (length h0) h0 hc -> Den 0 h0 d v -> wf v = true -> is_mapping v = true ->
+      mdp_h fuel hc secret d = Ok (h', r) -> Shr (length hc) secret h0 h' d r v.
+
+  Lemma go_h_sharing f o h0 secret ss : hget h0 secret = Some (PStr ss) -> length h0 <= o ->
+    forall vs, Forall (fun kv => shr_at h0 secret (snd kv)) vs -> Forall (fun kv => wf (snd kv) = true) vs ->
+    forall its hc accl paits pvs hf,
+      DenItems 0 h0 its vs -> pres (length h0) h0 hc -> o < length hc ->
+      hget hc o = Some (PDict dict_kind accl) ->
+      (forall k, In k (map fst its) -> ~ In k (map fst accl)) -> NoDup (map fst its) ->
+      ShrSlots (S o) secret h0 hc paits accl pvs ->
+      go_h (mdp_h f) secret [o] its hc = Ok hf ->
+      exists accl', hget hf o = Some (PDict dict_kind accl') /\
+                    ShrSlots (S o) secret h0 hf (paits ++ its) accl' (pvs ++ vs).
+  Proof.
+    intros Hs Hlo. induction vs as [|[k' v] vs IH]; intros HS HW [|[k l] its] hc accl paits pvs hf HD HP Hol Hgo Hdis Hnd HA G;
+      cbn [DenItems] in HD; try tauto.
+    - cbn [C08_Heap.go_h] in G. inversion G; subst. exists accl. rewrite !app_nil_r. auto.
+    - destruct HD as [Hk [HDv HDr]]. subst k'.
+      inversion HS as [|? ? Hv HSr]; subst. inversion HW as [|? ? Hwv HWr]; subst. cbn [snd] in Hv, Hwv.
+      cbn [map fst] in Hnd. inversion Hnd as [|? ? Hkn Hnd']; subst.
+      assert (HDc : Den 0 hc l v) by (eapply Den_pres; eassumption).
+      destruct HP as [L0 P0].
+      cbn [C08_Heap.go_h] in G. rewrite (run_body_heap hc k l v HDc), entry_action in G.
+      assert (K : forall h2 nl, pres (length hc) hc h2 -> slot_ok (S o) secret h0 h2 k l nl v ->
+                match hstore_all h2 [o] k nl with
+                | Exn e => Exn e
+                | Ok h4 => go_h (mdp_h f) secret [o] its h4
+                end = Ok hf ->
+                exists accl', hget hf o = Some (PDict dict_kind accl') /\
+                  ShrSlots (S o) secret h0 hf (paits ++ (k, l) :: its) accl' (pvs ++ (k, v) :: vs)).
+      { intros h2 nl [L2 P2] Hslot G2.
+        destruct (hstore_all h2 [o] k nl) as [h4|] eqn:S4; [|discriminate].
+        apply hstore_out in S4. destruct S4 as [L4 [P4 [kd [items [Hg2 Hg4]]]]].
+        rewrite P2 in Hg2 by exact Hol. rewrite Hgo in Hg2. inversion Hg2; subst kd items.
+        rewrite dict_set_l_fresh in Hg4 by (apply Hdis; left; reflexivity).
+        assert (Hst : forall m, S o <= m -> m < length hc -> hget h4 m = hget hc m).
+        { intros m Hm Hm'. rewrite P4 by lia. apply P2. exact Hm'. }
+        destruct (IH HSr HWr its h4 (accl ++ [(k, nl)]) (paits ++ [(k, l)]) (pvs ++ [(k, v)]) hf HDr) as [accl' [Ha Hb]].
+        - split; [lia|]. intros m Hm. rewrite P4 by lia. rewrite P2 by lia. apply P0. exact Hm.
+        - lia.
+        - exact Hg4.
+        - intros k0 Hin. rewrite map_app, in_app_iff. cbn [map fst In].
+          intros [H|[H|[]]]; [apply (Hdis k0); [right; exact Hin|exact H]|subst; contradiction].
+        - exact Hnd'.
+        - apply ShrSlots_snoc.
+          + unfold slot_ok in *. destruct v; auto. eapply Shr_stable; [|exact Hslot].
+            intros m Hm _. apply P4. lia.
+          + eapply ShrSlots_stable; [|exact HA]. exact Hst.
+        - exact G2.
+        - exists accl'. split; [exact Ha|]. rewrite <- !app_assoc in Hb. exact Hb. }
+      destruct (is_mapping v) eqn:Em.
+      + cbn [C08_Heap.entry_loc secret_loc] in G.
+        destruct (mdp_h f hc secret l) as [[h2 r2]|] eqn:E; [|discriminate].
+        apply (K h2 r2); [eapply mdp_h_frame; [exact mp_h_extends|exact E]| |exact G].
+        assert (HS2 : Shr (length hc) secret h0 h2 l r2 v) by (apply (Hv f hc l h2 r2); auto; split; assumption).
+        destruct v; try discriminate. unfold slot_ok. eapply Shr_mono; [|exact HS2]. lia.
+      + destruct (secret_key k) eqn:Esk.
+        * cbn [C08_Heap.entry_loc] in G. apply (K hc secret); [apply pres_refl| |exact G].
+          unfold slot_ok. destruct v; [rewrite Esk; reflexivity|discriminate|rewrite Esk; reflexivity].
+        * unfold plain_action in G. destruct v as [s|kd vs'|t]; cbn [val_is] in G; [|discriminate|].
+          -- cbn [C08_Heap.entry_loc secret_loc] in G.
+             rewrite (Den_loc_is hc l (VStr s) CStr HDc) in G. cbn [val_is] in G.
+             destruct (mp_h_extends hc l secret) as [e He].
+             destruct (mp_h hc l secret) as [h2 r]. cbn [fst] in He. subst h2.
+             apply (K (hc ++ e) r); [apply pres_app| |exact G]. unfold slot_ok. rewrite Esk. exact I.
+          -- cbn [C08_Heap.entry_loc] in G. apply (K hc l); [apply pres_refl| |exact G].
+             unfold slot_ok. rewrite Esk. reflexivity.
+  Qed.
+
+  Lemma sharing_all h0 secret ss : hget h0 secret = Some (PStr ss) -> forall v, shr_at h0 secret v.
+  Proof.
+    intros Hs. induction v as [s|t|kd vs IH] using value_ind'; intros fuel hc d h' r HP HD Hw Hm H; try discriminate.
+    destruct fuel as [|f]; [discriminate|].
+    apply Den_VMap in HD. destruct HD as [_ [items [Hg HDi]]].
+    assert (Hgc : hget hc d = Some (PDict kd items)).
+    { destruct HP as [_ P]. rewrite P; [exact Hg|eapply hget_lt; exact Hg]. }
+    rewrite (mdp_h_unfold_dict mp_h f hc secret d kd items Hgc) in H.
+    destruct (go_h (mdp_h f) secret [length hc] items (hc ++ [PDict dict_kind []])) as [hf|] eqn:G; [|discriminate].
+    inversion H; subst hf r. clear H.
+    apply wf_VMap in Hw. destruct Hw as [Hnd Hw]. rewrite Forall_forall in Hw.
+    destruct (go_h_sharing f (length hc) h0 secret ss Hs (proj1 HP) vs IH
+                (proj2 (Forall_forall _ _) Hw) items (hc ++ [PDict dict_kind []]) [] [] [] h' HDi)
+      as [accl' [Ha Hb]].
+    - destruct HP as [L P]. split; [rewrite app_length; lia|]. intros m Hm'. rewrite hget_app_old by lia. apply P. exact Hm'.
+    - rewrite app_length. cbn [length]. lia.
+    - apply hget_alloc_new.
+    - intros k _ [].
+    - rewrite (DenItems_keys 0 h0 vs items HDi). exact Hnd.
+    - exact I.
+    - exact G.
+    - apply Shr_VMap. split; [lia|]. exists items, accl'. split; [exact Hg|]. split; [exact Ha|].
+      cbn [app] in Hb. eapply ShrSlots_impl; [|exact Hb]. apply Forall_forall. intros kv _ al rl. apply Shr_mono. lia.
+  Qed.
+
+  (* C08_result_sharing *)
+  Theorem result_sharing fuel h d secret ss t h' r :
+    Den 0 h d t -> wf t = true -> is_mapping t = true -> hget h secret = Some (PStr ss) ->
+    mdp_h fuel h secret d = Ok (h', r) -> Shr (length h) secret h h' d r t.
+  Proof. intros HD Hw Hm Hs H. eapply (sharing_all h secret ss Hs t); eauto. apply pres_refl. Qed.
+End Sharing.
+
+(* on the example heap: both images of the shared mapping e are new dicts, the list (3) and the
+   secret (4) are shared by reference *)
+Example ex_heap_sharing :
+  exists t h' r, denote 6 ex_heap 0 = Some t /\ wf t = true /\
+    mdp_h (mp_h_alloc toy_mp) 3 ex_heap 4 0 = Ok (h', r) /\ Shr (length ex_heap) 4 ex_heap h' 0 r t.
+Proof.
+  eexists. eexists. eexists. split; [vm_compute; reflexivity|]. split; [vm_compute; reflexivity|].
+  split; [apply ex_heap_run|].
+  eapply result_sharing with (ss := lit "***"); try apply ex_heap_run.
+  - apply mp_h_alloc_extends.
+  - apply (denote_sound 6). vm_compute. reflexivity.
+  - vm_compute. reflexivity.
+  - reflexivity.
+  - reflexivity.
+Qed.
